@@ -1371,6 +1371,50 @@ def pred_optional_word_prefix_drop(v, params):
 core.PREDICATES["c19_optional_word_prefix_drop"] = pred_optional_word_prefix_drop
 
 
+def pred_mi_sequence_merge(v, params):
+    """canonicalize.rs merge_mi_sequence() joins adjacent one-letter <mi>s into a word it knows ('t' 'r' -> 'tr', 's' 'i' 'n' -> 'sin') and
+    keeps only the first letter's attributes.  Holds when a referenced operand of the witness is a one-letter <mi> next to another one-letter
+    <mi> in a row, and the expression returned by set_mathml no longer has an element with that arg."""
+    if v["kind"] not in ("legal-rejected", "legal-not-honoured") or "standing-changed-by-clean-up" not in v["sig"]:
+        return False
+    w = v["witness"]
+    root = ET.fromstring(w["mathml"])
+    parent = {c: p for p in root.iter() for c in p}
+    an = Analysis(root)
+
+    def one_letter_mi(x):
+        return x is not None and mml.local(x.tag) == "mi" and len((x.text or "").strip()) == 1 and len(x) == 0
+    candidates = []
+    for e in an.live:
+        if an.eff[e][0] != G.LEGAL or an.j[e].node is None:
+            continue
+        sc = an.scope.get(e) or {}
+        for nme in an.j[e].node.refs():
+            t = sc.get(nme)
+            p = parent.get(t)
+            if not one_letter_mi(t) or p is None or mml.local(p.tag) not in ("mrow", "math"):
+                continue
+            kids = list(p)
+            i = kids.index(t)
+            if (i > 0 and one_letter_mi(kids[i - 1])) or (i + 1 < len(kids) and one_letter_mi(kids[i + 1])):
+                candidates.append(nme)
+    if not candidates:
+        return False
+    sess = Sess(w["cfg"])
+    try:
+        r = sess.call("set_mathml", w["mathml"])
+        if r is None or r["r"] != "ok":
+            return False
+        canon = ET.fromstring(r["v"])
+        args = set(x.get("arg") for x in canon.iter() if x.get("arg") is not None)
+        return any(nme not in args for nme in candidates)
+    finally:
+        sess.close()
+
+
+core.PREDICATES["c19_mi_sequence_merge"] = pred_mi_sequence_merge
+
+
 def replay(witness):
     cfg = witness["cfg"]
     sess = Sess(cfg)
